@@ -34,7 +34,8 @@ ASSUMPTIONS = [
 FORD_OPTS = dict(display=["public", "private", "protected"], proc_internals=True)
 
 KINDS = ["variable", "parameter", "type", "subroutine", "function", "generic", "absinterface", "operator",
-         "component", "binding", "binding2"]        # binding2: two bindings declared by one statement
+         "component", "binding", "binding2",        # binding2: two bindings declared by one statement
+         "generic2"]                                # generic2: one generic name extended by a second interface block
 DEFAULTS = [None, "public", "private"]
 POSITIONS = ["early", "late"]
 
@@ -108,8 +109,8 @@ def build(kind, default, pos, how, ch, with_context=True, excl=()):
             p["rettype"] = I
             p["exec"] = [f"{tname} = 1"]
         m["procs"].insert(ch.int(len(m["procs"]) + 1), p)
-    elif kind in ("generic", "operator"):
-        if kind == "generic":
+    elif kind in ("generic", "operator", "generic2"):
+        if kind in ("generic", "generic2"):
             spec = {"k": "subroutine", "name": "spec_of_target", "args": ["a"], "prefix": [], "decls": [_var("a", I)],
                     "exec": [], "procs": [], "uses": [], "doc": None}
             spec["decls"][0]["intent"] = "in"
@@ -122,6 +123,15 @@ def build(kind, default, pos, how, ch, with_context=True, excl=()):
         m["procs"].append(spec)
         decls.insert(at, {"d": "interface", "form": "generic", "name": name, "modprocs": ["spec_of_target"], "bodies": [],
                           "doc": None, "access": acc, "access_how": where})
+        if kind == "generic2":
+            R = {"base": "real", "kind": None}
+            spec2 = {"k": "subroutine", "name": "spec2_of_target", "args": ["a"], "prefix": [], "decls": [_var("a", R)],
+                     "exec": [], "procs": [], "uses": [], "doc": None}
+            spec2["decls"][0]["intent"] = "in"
+            m["procs"].append(spec2)
+            # the access statement names the generic once; it holds for both blocks
+            decls.insert(ch.int(len(decls) + 1), {"d": "interface", "form": "generic", "name": name, "modprocs": ["spec2_of_target"],
+                                                  "bodies": [], "doc": None, "access": acc, "access_how": "attr"})
     elif kind == "absinterface":
         body = {"k": "subroutine", "name": tname, "args": [], "prefix": [], "decls": [], "doc": None,
                 "access": acc, "access_how": where}
